@@ -108,7 +108,21 @@ def main():
     print(json.dumps(out))
 
 
+def memoize_dependency():
+    """decimalfp's pure-Python fallback spends 20 ms in the pure function
+    _approx_rational(num, den, min_prec) for every non-terminating quotient;
+    memoising it changes no result (recorded as an assumption of the stand-ins)"""
+    import functools
+    try:
+        import decimalfp._pydecimalfp as P
+    except ImportError:
+        return
+    if not hasattr(P._approx_rational, "cache_info"):
+        P._approx_rational = functools.lru_cache(maxsize=400000)(P._approx_rational)
+
+
 def run_shard(name, spec, i, n):
+    memoize_dependency()
     mod = importlib.import_module("runtime.standins_" + name.lower())
     job = Job(dict(spec, shard=i, nshards=n))
     try:
